@@ -188,7 +188,7 @@ func (c *deadConn) LocalAddr() net.Addr                { return nil }
 func (c *deadConn) RemoteAddr() net.Addr               { return nil }
 
 func parseU(s string) time.Duration {
-	if s == "never" {
+	if s == "never" || s == "neverT" {
 		return -1
 	}
 	n, _ := strconv.Atoi(s)
@@ -303,7 +303,12 @@ func dialcOnce(a []string) string {
 		}
 		ch := make(chan res, 1)
 		go func() {
-			_, _, _, err := d.Dial(ctx, "ws://example.com/x")
+			u := "ws://example.com/x"
+			if hsF[0] == "neverT" {
+				// TLS (the default TLSClient over the scripted conn): the peer never answers the ClientHello
+				u = "wss://example.com/x"
+			}
+			_, _, _, err := d.Dial(ctx, u)
 			ch <- res{err}
 		}()
 		hung := 0
@@ -405,6 +410,14 @@ func genC20(tier string, r *rng) {
 		if coincide(k.timeout, k.ctx, k.dial, k.hs) {
 			continue
 		}
+		run(fmt.Sprintf("dialc %s %s %s %s %s %s", k.bg, k.timeout, k.ctx, k.dial, k.hs, k.fail))
+	}
+	// wss:// with a peer that accepts the connection and then stays silent: every way the limit can come
+	for _, k := range []c{
+		{"0", "0", "cancel:2", "0", "neverT", "0"}, {"0", "0", "cancel:3", "1", "neverT", "0"}, {"0", "0", "deadline:2", "0", "neverT", "0"},
+		{"0", "2", "none", "0", "neverT", "0"}, {"1", "2", "none", "0", "neverT", "0"}, {"0", "7", "cancel:2", "0", "neverT", "0"},
+		{"0", "3", "cancel:6", "1", "neverT", "0"},
+	} {
 		run(fmt.Sprintf("dialc %s %s %s %s %s %s", k.bg, k.timeout, k.ctx, k.dial, k.hs, k.fail))
 	}
 	// the response arrives in two parts, the first ending in the middle of a header line; the context ends /
